@@ -268,6 +268,12 @@ func (maps *trackedMaps) processUnfiltered(ctx context.Context, ef *Filter, filt
 								return fmt.Errorf("%s: unable to filter slice of structs: %w", op, err)
 							}
 						case fkind == reflect.Map:
+							if _, ok := maps.getTracked(f.Pointer()); ok {
+								// this map is tracked itself (one of its keys was
+								// tagged): it is filtered on its own turn, with its
+								// already filtered keys left alone.
+								continue
+							}
 							newMaps.trackMap(&tMap{
 								value: f,
 							})
